@@ -4,11 +4,14 @@
   Model: Nervus.Model.Hnsw (HnswIndex::{insert, search_layer, select_neighbors, search},
   GraphEngine::search_vector; abstract distance, levels as input, repairs read from the regenerated
   table Generated/HnswFlags).  Spec: Nervus.Spec.VectorSearch (`Sound`, `Exact`, `bruteForce`).
-  The f32 value of the Euclidean distance and durability across reopen are NOT in these theorems:
-  the stream `hnsw` checks them on the real code (brute-force recomputation, search before/after
-  reopen) — that part of C31 is covered by testing only.
+  The f32 value of the Euclidean distance is NOT in these theorems (stream `hnsw`: brute-force
+  recomputation on the real code).  Durability is proved at the level of the persistent store
+  (Model/HnswStore over builder btree's B-tree model): `durable_*` below; that the B-tree behind a
+  given root answers like the map of Model/Hnsw is C26's refinement, not re-proved here.
 -/
 import Nervus.Proofs.HnswHistory
+import Nervus.Proofs.HnswStore
+import Nervus.Model.BTreeReal
 namespace Nervus.Props.C31
 open Nervus Nervus.Hnsw
 
@@ -151,5 +154,53 @@ theorem counterexample_deleted_node :
     ((erun intSpace pSmall (opsTwo ++ [.del 0]) EState.init).toOption.bind fun st =>
       (searchVector Cfg.fixed intSpace pSmall st.ix st.tomb [0, 0] 2).toOption) = some [(4, 1)] := by
   constructor <;> decide +kernel
+
+/-! ### durability: what the next `open` loads is what the running engine uses -/
+
+section durability
+open Nervus.BTree Nervus.HnswStore
+variable {κ : Type} [KeyOrd κ]
+
+/-- the root write-back of `insert_vector` is present in the source (regenerated) -/
+theorem roots_written_back : rootsWrittenBack = true := by decide
+
+/-- **durability of the two system B-trees**: after ANY history of successful engine inserts — any
+    keys, any payloads, any number of leaf / internal / root splits, any page size — the catalog
+    records the roots in use, so reopening changes nothing at all in the store the index reads -/
+theorem durable_store (c : BTree.Cfg) (ops : List (List (κ × Nat) × List (κ × Nat))) (s : Store κ)
+    (h : runStore rootsWrittenBack c (Store.create c) ops = (s, true)) : s.reopen = s := by
+  rw [roots_written_back] at h
+  obtain ⟨hv, hg⟩ := runStore_synced c ops _ s (create_synced c) (create_synced c) h
+  exact store_reopen_of_synced s hv hg
+
+/-- … hence every `get_vector` / `get_neighbors` / `get_meta` (a `lookup`) answers the same after
+    the reopen, and so does every search built from them -/
+theorem durable_reads (c : BTree.Cfg) (ops : List (List (κ × Nat) × List (κ × Nat))) (s : Store κ)
+    (h : runStore rootsWrittenBack c (Store.create c) ops = (s, true)) (k : κ) :
+    lookup c s.reopen.vec.tree k = lookup c s.vec.tree k ∧
+    lookup c s.reopen.graph.tree k = lookup c s.graph.tree k := by
+  rw [durable_store c ops s h]; exact ⟨rfl, rfl⟩
+
+/-- non-vacuity / C31-root-split-reopen (repaired): on a 64-byte page six vector writes split the
+    root; with the write-back the reopened store still finds all six keys … -/
+example :
+    let s := (runStore true (BTree.Cfg.small 64) (Store.create (BTree.Cfg.small 64) : Store Nat)
+      [([(1, 10), (2, 20), (3, 30)], []), ([(4, 40), (5, 50), (6, 60)], [])]).1
+    s.vec.tree.root ≠ (Store.create (BTree.Cfg.small 64) : Store Nat).vec.tree.root ∧
+    [1, 2, 3, 4, 5, 6].map (fun k => lookup (BTree.Cfg.small 64) s.reopen.vec.tree k) =
+      [.ok (some 10), .ok (some 20), .ok (some 30), .ok (some 40), .ok (some 50), .ok (some 60)] := by
+  decide +kernel
+
+/-- … without it (pinned tree) the reopened store reads through the old root and has lost three -/
+theorem counterexample_root_split_reopen :
+    let s := (runStore false (BTree.Cfg.small 64) (Store.create (BTree.Cfg.small 64) : Store Nat)
+      [([(1, 10), (2, 20), (3, 30)], []), ([(4, 40), (5, 50), (6, 60)], [])]).1
+    [1, 2, 3, 4, 5, 6].map (fun k => lookup (BTree.Cfg.small 64) s.vec.tree k) =
+      [.ok (some 10), .ok (some 20), .ok (some 30), .ok (some 40), .ok (some 50), .ok (some 60)] ∧
+    [1, 2, 3, 4, 5, 6].map (fun k => lookup (BTree.Cfg.small 64) s.reopen.vec.tree k) =
+      [.ok (some 10), .ok (some 20), .ok (some 30), .ok none, .ok none, .ok none] := by
+  decide +kernel
+
+end durability
 
 end Nervus.Props.C31
